@@ -472,7 +472,15 @@ where
     usize: AsPrimitive<F>,
 {
     let range = probabilities.shape()[1];
-    let probabilities = probabilities.as_slice()?.chunks_exact(range);
+    // `PyReadonlyArray::as_slice` also succeeds for Fortran-contiguous arrays and then returns the
+    // entries in memory (i.e., column-major) order, which would silently misinterpret columns as
+    // rows. Bring the matrix into row-major order first (a no-op for C-contiguous arrays).
+    let probabilities = probabilities.as_array();
+    let probabilities = probabilities.as_standard_layout();
+    let probabilities = probabilities
+        .as_slice()
+        .expect("array is in standard layout")
+        .chunks_exact(range);
     if reverse {
         parameterize_categorical_with_float_type(probabilities.rev(), perfect, callback)
     } else {
